@@ -296,4 +296,75 @@ def observe (r : Nat × LState) : Obs :=
 /-- A checkpoint that forgets the generator state (restarts it at `0`). -/
 def encNoTape (m : MState Nat) : MState Nat := (m.1, 0, m.2.2)
 
+/-! ### A hidden component next to the generator state (what a checkpoint does not save) -/
+
+section C03Hidden
+variable {τ H B : Type}
+
+/-- A decision record of a loop whose generator state is paired with a hidden component leaves the hidden component
+as it found it. -/
+def KeepsHidden (stp : Step (τ × H)) : Prop :=
+  ∀ t st pop r, stp.produce t st pop = some r → r.tape.2 = t.2
+
+/-- The checkpoint of the C03 machine that does not save the hidden half of the tape … -/
+def hideEnc (enc : MState τ → B) : MState (τ × H) → B := fun m => enc (m.1, m.2.1.1, m.2.2)
+
+/-- … and the restore in a new process, whose hidden half is the import-time value `h0`. -/
+def hideDec (dec : B → Option (MState τ)) (h0 : H) : B → Option (MState (τ × H)) :=
+  fun b => (dec b).map (fun m => (m.1, (m.2.1, h0), m.2.2))
+
+theorem generation_keeps_hidden (ev : List Int → List Int) (stp : Step (τ × H)) (hk : KeepsHidden stp) (g : Nat)
+    (t : τ × H) (s : LState) (r : (τ × H) × LState) (h : generation ev stp g t s = some r) : r.1.2 = t.2 := by
+  rw [generation_eq_core] at h
+  unfold genCore at h
+  cases hp : stp.produce t s.st s.pop with
+  | none => rw [hp] at h; cases h
+  | some res =>
+    rw [hp] at h
+    simp only at h
+    cases hr : stp.replace
+        (assignFits ev res.st.heap (if stp.evalAll then res.off else invalidOf res.st.heap res.off)) s.pop res.off with
+    | none => rw [hr] at h; cases h
+    | some np =>
+      rw [hr] at h
+      simp only [Option.map_some, Option.some.injEq] at h
+      subst h
+      exact hk t s.st s.pop res hp
+
+theorem runGens_keeps_hidden (ev : List Int → List Int) :
+    ∀ (steps : List (Step (τ × H))), (∀ stp ∈ steps, KeepsHidden stp) → ∀ (g : Nat) (t : τ × H) (s : LState)
+      (r : (τ × H) × LState), runGens ev steps g t s = some r → r.1.2 = t.2
+  | [], _, g, t, s, r, h => by
+    simp only [runGens, Option.some.injEq] at h
+    subst h; rfl
+  | stp :: rest, hk, g, t, s, r, h => by
+    simp only [runGens] at h
+    cases hg : generation ev stp g t s with
+    | none => rw [hg] at h; cases h
+    | some r1 =>
+      obtain ⟨t1, s1⟩ := r1
+      rw [hg] at h
+      simp only at h
+      have e1 := generation_keeps_hidden ev stp (hk stp (List.mem_cons_self ..)) g t s (t1, s1) hg
+      have e2 := runGens_keeps_hidden ev rest (fun x hx => hk x (List.mem_cons_of_mem _ hx)) (g + 1) t1 s1 r h
+      rw [e2, ← e1]
+
+/-- A decision record that knows nothing about the hidden component, run next to it. -/
+def liftHidden (stp : Step τ) : Step (τ × H) where
+  produce := fun t st pop => (stp.produce t.1 st pop).map (fun r => ⟨(r.tape, t.2), r.st, r.off⟩)
+  replace := stp.replace
+  evalAll := stp.evalAll
+
+theorem liftHidden_keeps (stp : Step τ) : KeepsHidden (liftHidden (H := H) stp) := by
+  intro t st pop r h
+  simp only [liftHidden] at h
+  cases hp : stp.produce t.1 st pop with
+  | none => rw [hp] at h; cases h
+  | some r0 =>
+    rw [hp] at h
+    simp only [Option.map_some, Option.some.injEq] at h
+    subst h; rfl
+
+end C03Hidden
+
 end C17
